@@ -8,6 +8,7 @@
 //!         prost schema. The clock is tokio's paused clock: a stalled write ends by WRITE_TIMEOUT
 //!         when the harness advances it.
 //! kind 5: `extract_next_presence_batch` / `presences_message` through the verif wrappers.
+//! kind 6: the real `send_request` on a substream over an in-memory carrier.
 use super::{gen_rblock, get_varint, limbs, payload, put_varint};
 use crate::util::*;
 use futures::Stream;
@@ -21,10 +22,12 @@ use litep2p::{
         verif::{VerifConnection, VerifServiceInput},
         TransportService,
     },
+    substream::Substream,
     transport::verif::{TransportManager, TransportManagerBuilder},
     types::{
         cid::{Cid, Multihash, Version},
         protocol::ProtocolName,
+        SubstreamId,
     },
     PeerId,
 };
@@ -1405,10 +1408,11 @@ pub fn run_node(c: &[u64]) -> Option<Vec<u64>> {
     rt.block_on(tokio::task::unconstrained(run_node_async(c)))
 }
 
-// ------------------------------------------------------------------ kind 6: want batching
+// ------------------------------------------------------------------ kind 6: send_request, one message
 
 pub fn gen_wants(rng: &mut Rng, thorough: bool) -> Vec<u64> {
-    let mm = rng.pick(&[0u64, 1, 2, 3, 40, 43, 44, 45, 46, 47, 48, 90, 100, 128, 131, 132, 133, 256, 256, 1000, 1000, 30_000, 1 << 40]);
+    // limits on both sides of the size of the one message (0-60 wants of 8-94 bytes; thorough 0-300)
+    let mm = rng.pick(&[0u64, 1, 2, 3, 44, 45, 46, 90, 200, 500, 1000, 1500, 2000, 3000, 5000, 8000, 12_000, 30_000, 1 << 40]);
     let n = rng.range(0, if thorough { 300 } else { 60 });
     let mut c = vec![6, mm, n];
     for _ in 0..n {
@@ -1419,7 +1423,8 @@ pub fn gen_wants(rng: &mut Rng, thorough: bool) -> Vec<u64> {
     c
 }
 
-/// The `loop { .. }` of send_request over the hooked functions.
+/// The real `send_request` on a substream over an in-memory carrier whose codec has the message
+/// size limit of the case.
 pub fn run_wants(c: &[u64]) -> Option<Vec<u64>> {
     let mut rd = Rd { c, i: 1 };
     let mm = rd.n()? as usize;
@@ -1440,48 +1445,49 @@ pub fn run_wants(c: &[u64]) -> Option<Vec<u64>> {
     if rd.i != c.len() {
         return None;
     }
-    let mut queue: VecDeque<(Cid, WantType)> = orig.iter().cloned().collect();
-    let mut out = vec![6u64, 0];
-    let mut nb = 0u64;
-    let mut cursor = 0usize;
-    loop {
-        let batch = bs::extract_next_want_batch(&mut queue, mm);
-        nb += 1;
-        if nb > orig.len() as u64 + 2 {
-            out.push(888_888_888);
-            break;
-        }
-        out.push(batch.len() as u64);
-        for b in batch.iter() {
-            let mut id = 777_777_777u64;
-            for j in cursor..orig.len() {
-                if orig[j].0 == b.0 && orig[j].1 == b.1 {
-                    cursor = j + 1;
-                    id = j as u64;
-                    break;
-                }
-            }
-            out.push(id);
-        }
-        let msg = bs::request_message(batch.clone());
-        out.push(msg.len() as u64);
-        let dec = bs::SchemaMessage::decode(&msg[..]).ok()?;
-        let w = dec.wantlist.as_ref()?;
-        out.push(w.entries.len() as u64);
-        for x in w.entries.iter() {
-            put_bytes(&x.block, &mut out);
-            out.extend([x.priority as u32 as u64, x.cancel as u64, x.want_type as u32 as u64, x.send_dont_have as u64]);
-        }
-        out.push(w.full as u64);
-        put_bytes(&msg, &mut out);
-        if !dec.payload.is_empty() || !dec.block_presences.is_empty() {
-            out.push(666_666_666);
-        }
-        if queue.is_empty() {
+    let carrier = Carrier::default();
+    let mut substream = Substream::new_verif(
+        PeerId::random(),
+        SubstreamId::from(1usize),
+        Box::new(carrier.clone()),
+        ProtocolCodec::UnsignedVarint(Some(mm)),
+    );
+    let rt = tokio::runtime::Builder::new_current_thread().enable_time().start_paused(true).build().unwrap();
+    let res = rt.block_on(bs::send_request(&mut substream, orig.clone()));
+    let written = carrier.take_written();
+    let mut out = vec![6u64];
+    if res.is_err() {
+        out.extend([0, written.len() as u64]);
+        return Some(out);
+    }
+    // one frame: length prefix, body
+    let mut len: u64 = 0;
+    let mut used = 0;
+    for (i, b) in written.iter().enumerate().take(10) {
+        len |= ((*b & 0x7f) as u64) << (7 * i);
+        used = i + 1;
+        if b & 0x80 == 0 {
             break;
         }
     }
-    out[1] = nb;
+    let body = written.get(used..)?;
+    if body.len() as u64 != len {
+        out.push(555_555_555);
+        return Some(out);
+    }
+    out.extend([1, len]);
+    let dec = bs::SchemaMessage::decode(body).ok()?;
+    let w = dec.wantlist.as_ref()?;
+    out.push(w.entries.len() as u64);
+    for x in w.entries.iter() {
+        put_bytes(&x.block, &mut out);
+        out.extend([x.priority as u32 as u64, x.cancel as u64, x.want_type as u32 as u64, x.send_dont_have as u64]);
+    }
+    out.push(w.full as u64);
+    put_bytes(body, &mut out);
+    if !dec.payload.is_empty() || !dec.block_presences.is_empty() {
+        out.push(666_666_666);
+    }
     Some(out)
 }
 
